@@ -123,7 +123,7 @@ def continue_serving(m, sim, before, res, failures, label, then, max_rows=12500)
             obs = observe.observe(w, ref, what=('hist',))
             for field, detail in observe.compare(obs, ref, ('hist',)):
                 failures.append((f'{label}:{field}', detail if isinstance(detail, dict) else {}))
-        except (world.ReaderBlocked, RuntimeError) as e:
+        except (world.ReaderBlocked, observe.ReadFailed, RuntimeError) as e:
             failures.append((f'{label}:reader-retries-forever', dict(error=repr(e))))
         res.count('server_starts_after_compaction')
         if failures or not then:
@@ -165,7 +165,7 @@ def continue_serving(m, sim, before, res, failures, label, then, max_rows=12500)
                 for field, detail in observe.compare(obs, ref, ('hist',)):
                     failures.append((f'{label}:{then}:{field}',
                                      detail if isinstance(detail, dict) else {}))
-            except (world.ReaderBlocked, RuntimeError) as e:
+            except (world.ReaderBlocked, observe.ReadFailed, RuntimeError) as e:
                 failures.append((f'{label}:{then}:reader-retries-forever', dict(error=repr(e))))
             res.count('continuations_index,tool,index')
             return
@@ -188,7 +188,7 @@ def continue_serving(m, sim, before, res, failures, label, then, max_rows=12500)
             obs = observe.observe(w, ref, what=('hist',))
             for field, detail in observe.compare(obs, ref, ('hist',)):
                 failures.append((f'{label}:{then}:{field}', detail if isinstance(detail, dict) else {}))
-        except (world.ReaderBlocked, RuntimeError) as e:
+        except (world.ReaderBlocked, observe.ReadFailed, RuntimeError) as e:
             failures.append((f'{label}:{then}:reader-retries-forever', dict(error=repr(e))))
         res.count('continuations_' + then)
     finally:
